@@ -87,4 +87,91 @@ example : assemblePassword 4 3 (storePassword 4 3 [97, 98, 99, 100, 101, 102] [9
     (storePassword 4 3 [97, 98, 99, 100, 101, 102] [9, 9, 9, 9] [7, 7, 7]).2 = [97, 98, 99, 100, 101, 102] := by
   decide
 
+/-! ### fixed header: what the device packs, every MQTT 3.1.1 reader unpacks -/
+
+theorem u8_small (k : Nat) (h : k < 256) : (UInt8.ofNat k).toNat = k := by
+  simp [Nat.mod_eq_of_lt h]
+
+/-- decoding the length bytes written by `encRem` gives back the length (general position, shift and accumulator) -/
+theorem remLen_encRem (fe : Nat) : ∀ (pre rest : Bytes) (n shift acc fr : Nat), n < 128 ^ fe → 1 ≤ fe →
+    shift + 7 * fe ≤ 28 → fe ≤ fr →
+    remLen (pre ++ encRem fe n ++ rest) fr pre.length shift acc =
+      some (some (acc + n * 2 ^ shift, pre.length + (encRem fe n).length)) := by
+  induction fe with
+  | zero => intro pre rest n shift acc fr _ h1; omega
+  | succ fe ih =>
+    intro pre rest n shift acc fr hn _ hs hfr
+    obtain ⟨fr', rfl⟩ : ∃ k, fr = k + 1 := ⟨fr - 1, by omega⟩
+    unfold encRem remLen
+    have hs28 : ¬ shift = 28 := by omega
+    rw [if_neg hs28]
+    by_cases hbig : n > 127
+    · rw [if_pos hbig]
+      have hlen : ¬ pre.length ≥ (pre ++ UInt8.ofNat (n % 128 + 128) :: encRem fe (n / 128) ++ rest).length := by
+        simp
+      rw [if_neg hlen]
+      have hget : (pre ++ UInt8.ofNat (n % 128 + 128) :: encRem fe (n / 128) ++ rest).getD pre.length 0 =
+          UInt8.ofNat (n % 128 + 128) := by
+        simp [List.getD_eq_getElem?_getD, List.getElem?_append_right]
+      simp only [hget]
+      rw [u8_small _ (by omega)]
+      rw [if_pos (by omega)]
+      have hfe : 1 ≤ fe := by
+        cases fe with
+        | zero => simp at hn; omega
+        | succ k => omega
+      have hn' : n / 128 < 128 ^ fe := by
+        rw [Nat.pow_succ] at hn
+        exact Nat.div_lt_of_lt_mul (by rw [Nat.mul_comm]; exact hn)
+      have hl : pre ++ UInt8.ofNat (n % 128 + 128) :: encRem fe (n / 128) ++ rest =
+          (pre ++ [UInt8.ofNat (n % 128 + 128)]) ++ encRem fe (n / 128) ++ rest := by simp
+      have hi : pre.length + 1 = (pre ++ [UInt8.ofNat (n % 128 + 128)]).length := by simp
+      rw [hl, hi, ih (pre ++ [UInt8.ofNat (n % 128 + 128)]) rest (n / 128) (shift + 7) _ fr' hn' hfe (by omega) (by omega)]
+      have hp : 2 ^ (shift + 7) = 128 * 2 ^ shift := by rw [Nat.pow_add]; omega
+      have hm : (n % 128 + 128) % 128 = n % 128 := by omega
+      have hsplit : n * 2 ^ shift = n % 128 * 2 ^ shift + n / 128 * (128 * 2 ^ shift) := by
+        conv => lhs; rw [← Nat.div_add_mod n 128]
+        rw [Nat.add_mul, Nat.mul_comm 128 (n / 128), Nat.mul_assoc, Nat.add_comm]
+      rw [hp, hm, hsplit]
+      simp only [List.length_append, List.length_cons, List.length_nil]
+      generalize n % 128 * 2 ^ shift = A
+      generalize n / 128 * (128 * 2 ^ shift) = B
+      generalize (encRem fe (n / 128)).length = Ln
+      have e1 : acc + A + B = acc + (A + B) := by omega
+      have e2 : pre.length + (0 + 1) + Ln = pre.length + (Ln + 1) := by omega
+      rw [e1, e2]
+    · rw [if_neg hbig]
+      have hlen : ¬ pre.length ≥ (pre ++ [UInt8.ofNat (n % 128)] ++ rest).length := by
+        simp
+      rw [if_neg hlen]
+      have hget : (pre ++ [UInt8.ofNat (n % 128)] ++ rest).getD pre.length 0 = UInt8.ofNat (n % 128) := by
+        simp [List.getD_eq_getElem?_getD, List.getElem?_append_right]
+      simp only [hget]
+      rw [u8_small _ (by omega)]
+      rw [if_neg (by omega)]
+      have : n % 128 % 128 = n := by omega
+      simp [this]
+
+/-- **C17 (valid fixed header)** for every control type, flags and every remaining length the encoder accepts
+    (below 2^28): the header the device packs is decoded by the MQTT 3.1.1 length rule (`remLen`, the same
+    rule the receive side uses) to exactly that remaining length, and the packet body starts right behind it -
+    in particular at the boundary 127/128 between one and two length bytes. -/
+theorem c17_header_roundtrip (ty flags rem : Nat) (hdr body : Bytes) (h : packHeader ty flags rem = some hdr) :
+    remLen (hdr ++ body) 5 1 0 0 = some (some (rem, hdr.length)) := by
+  unfold packHeader at h
+  by_cases hbig : rem ≥ 268435456
+  · rw [if_pos hbig] at h; cases h
+  · rw [if_neg hbig] at h
+    injection h with h
+    subst h
+    have := remLen_encRem 4 [UInt8.ofNat (ty % 16 * 16 + flags % 16)] body rem 0 0 5 (by omega) (by omega) (by omega) (by omega)
+    simpa [Nat.add_comm] using this
+
+/-- lengths of 2^28 and more are refused -/
+theorem c17_header_too_long (ty flags rem : Nat) (h : rem ≥ 268435456) : packHeader ty flags rem = none := by
+  unfold packHeader; rw [if_pos h]
+
+example : packHeader 1 0 128 = some [0x10, 0x80, 0x01] := by decide
+example : packHeader 1 0 127 = some [0x10, 0x7f] := by decide
+
 end SuplaVerif.C17
